@@ -91,13 +91,28 @@ class UpdateReferences:
           found = True
       elif isinstance(elem, gfapy.OrientedLine):
         if elem.line is oldref:
-          if hasattr(oldref, "is_complement") and \
-                            oldref.is_complement(newref):
+          if self.__is_complement_of_required_link(oldref, newref):
             elem.orient = gfapy.invert(elem.orient)
           elem.line = newref
           found = True
     if newref is None and found:
       lst[:] = [e for e in lst if e is not None]
+
+  @staticmethod
+  def __is_complement_of_required_link(oldref, newref):
+    """
+    Is the real link newref the complement of the (virtual) link oldref,
+    which was created for a path? A placeholder overlap in the path is
+    thereby compatible with any overlap of the link.
+    """
+    if newref is None or not hasattr(oldref, "is_complement") or \
+        not hasattr(newref, "is_compatible_complement"):
+      return False
+    if newref.is_compatible_direct(oldref.oriented_from, oldref.oriented_to,
+                                   oldref.overlap):
+      return False
+    return newref.is_compatible_complement(oldref.oriented_from,
+                                           oldref.oriented_to, oldref.overlap)
 
   def __update_field_references(self, oldref, newref, possible_fieldnames):
     for fn in possible_fieldnames:
